@@ -778,6 +778,10 @@ func (iBuilder *IndexBuilder) DropSeries() error {
 
 		if e = idx.tb.RemoveItemsByDelTsidsFromParts(delTsids); e == nil {
 			deleteMergeSet.tb.RemoveDeletedPart()
+		} else if errors.Is(e, mergeset.ErrPartsSkipped) {
+			// some parts were being merged and still hold items of the deleted tsids: keep the tsids in the
+			// deleted-series table (its labelled parts go with the next complete pass)
+			e = nil
 		}
 	}
 	return e
